@@ -134,6 +134,8 @@ type KDC struct {
 	Expect     Expect
 	Issued     []Issued
 	Requests   []Request
+	// StrictRenewal: a ticket that has ended cannot be renewed any more, whatever its renew-till time.
+	StrictRenewal bool
 	// FreshKeyOnRenew: renewed tickets carry a new session key instead of keeping the old one.
 	FreshKeyOnRenew bool
 	// LenientAuthCRealm: also accept an authenticator whose crealm is the realm of the presented ticket instead
@@ -647,7 +649,10 @@ func (k *KDC) handleTGS(req *krbmsg.KDCReq) []byte {
 			return k.errReply(50, req, nil)
 		}
 	}
-	if now.After(etp.EndTime.Add(k.Skew)) && !(renewal && etp.RenewTill != nil && now.Before(*etp.RenewTill)) {
+	// A ticket past its end time (plus skew) is refused. By default the model lets a renewable ticket be renewed until
+	// renew-till even after it has ended (lenient); StrictRenewal refuses that, as MIT's KDC does - both are conformant,
+	// and the client has to cope with either.
+	if now.After(etp.EndTime.Add(k.Skew)) && !(renewal && !k.StrictRenewal && etp.RenewTill != nil && now.Before(*etp.RenewTill)) {
 		return k.errReply(32, req, nil)
 	}
 	if now.After(etp.EndTime) && !renewal {
